@@ -8,6 +8,7 @@ pub mod c05;
 pub mod c07;
 pub mod c08;
 pub mod c10;
+pub mod c11;
 pub mod c12;
 pub mod c13;
 pub mod c14;
@@ -28,6 +29,7 @@ pub fn dispatch(prop: &str, cfg: &RunCfg, out: &Out) {
         "C08" => c08::run(cfg, out),
         "C09" => idx::run(idx::Kind::C09, cfg, out),
         "C10" => c10::run(cfg, out),
+        "C11" => c11::run(cfg, out),
         "C12" => c12::run(cfg, out),
         "C13" => c13::run(cfg, out),
         "C14" => c14::run(cfg, out),
